@@ -255,6 +255,21 @@ func (s *Server) Alive() bool {
 	return !s.exited
 }
 
+// Ping asks the server process for a `stats` line and waits for it: true means the process was alive and responsive
+// AFTER everything it had emitted before. (A goroutine panic lets deferred callbacks emit their events first and kills
+// the process a moment later, so "the expected event arrived" does not imply "the server survived".)
+func (s *Server) Ping(timeout time.Duration) bool {
+	if !s.Alive() {
+		return false
+	}
+	mark := s.Len()
+	if err := s.Command("stats"); err != nil {
+		return false
+	}
+	_, _, ok := s.WaitForFrom(mark, func(e Event) bool { return Str(e, "event") == "stats" }, timeout)
+	return ok && s.Alive()
+}
+
 // WaitExit waits for the process to exit by itself.
 func (s *Server) WaitExit(timeout time.Duration) bool {
 	select {
